@@ -336,7 +336,13 @@ class Intrinsics:
         if isinstance(a, num + strs) and isinstance(b, num + strs):
             return False  # number vs string
         if isinstance(a, EnumVal) or isinstance(b, EnumVal):
-            return a == b if isinstance(a, EnumVal) and isinstance(b, EnumVal) else False
+            if isinstance(a, EnumVal) and isinstance(b, EnumVal):
+                return a == b
+            o = b if isinstance(a, EnumVal) else a
+            e = a if isinstance(a, EnumVal) else b
+            if isinstance(o, SAny):
+                return o.t == ex.lift(e)[0]
+            return False
         if isinstance(a, tuple) and isinstance(b, tuple):
             if len(a) != len(b):
                 return False
@@ -706,6 +712,24 @@ class Intrinsics:
                 if raise_missing:
                     ex.raise_builtin("KeyError", "dict key")
                 return default
+            if len(d.concrete) > 6 and not ex.pure:
+                # a symbolic key into a large constant table: one if-then-else term over the entries
+                # (exact, and no path per entry)
+                try:
+                    kt, kk = ex.lift(key)
+                    entries = [(ex.lift(k)[0], ex.lift(v)[0]) for k, v in d.concrete.items() if ex.lift(k)[1] == kk]
+                    if all(z3.is_expr(vt) and vt.sort() == ObjSort for _, vt in entries):
+                        present = z3.Or(*[kt == k for k, _ in entries]) if entries else z3.BoolVal(False)
+                        if ex.decide(present):
+                            term = entries[-1][1]
+                            for k, vt in reversed(entries[:-1]):
+                                term = z3.If(kt == k, vt, term)
+                            return SAny(term)
+                        if raise_missing:
+                            ex.raise_builtin("KeyError", "dict key")
+                        return default
+                except Unsupported:
+                    pass
             for k, v in d.concrete.items():
                 e = self.equal(key, k)
                 if e is True or (e is not False and ex.decide(e)):
@@ -864,6 +888,9 @@ class Intrinsics:
                 from .specs import field_fn
 
                 kind = ex.contract.obj_fields[attr]
+                if kind.startswith("="):   # alias of another field (Token.start is Token.index)
+                    attr = kind[1:]
+                    kind = ex.contract.obj_fields[attr]
                 if attr in ex.contract.mutable_fields:
                     v = z3.Select(ex.heap_field_array(attr), obj.t)
                     return ex.unbox(v) if kind == "any" else wrap(v, kind)
@@ -931,11 +958,7 @@ class Intrinsics:
         try:
             v = ex.eval(expr, _frame_for(ex, mod))
         except Unsupported:
-            v = ex.native_constant(mod.name, f"{cls.name}.{attr}")
-            if isinstance(v, dict):
-                v = HDict(concrete=dict(v))
-            elif isinstance(v, (list,)):
-                v = HList(items=list(v))
+            v = _from_native(ex.native_constant(mod.name, f"{cls.name}.{attr}"))
         if isinstance(v, _re.Pattern):
             ex.pattern_names[attr] = v
         if ex.is_concrete(v) or isinstance(v, (ClassRef, ExternalRef, EnumVal)):
@@ -1306,6 +1329,23 @@ class Intrinsics:
 
 # helpers ---------------------------------------------------------------------
 from .engine import Frame as Frame_  # noqa: E402
+
+
+def _from_native(v):
+    """Values folded natively -> engine values (enum members, containers)."""
+    import enum
+
+    if isinstance(v, enum.Enum):
+        return EnumVal(type(v).__name__, v.name)
+    if isinstance(v, dict):
+        return HDict(concrete={_from_native(k): _from_native(x) for k, x in v.items()})
+    if isinstance(v, list):
+        return HList(items=[_from_native(x) for x in v])
+    if isinstance(v, tuple):
+        return tuple(_from_native(x) for x in v)
+    if isinstance(v, frozenset):
+        return Tagged("set", tuple(sorted((_from_native(x) for x in v), key=repr)))
+    return v
 
 
 def _frame_for(ex, mod):
